@@ -149,6 +149,8 @@ CHECKS = {
                 "non-trivial = a close or drop happened while messages were outstanding",
         "assumptions": ["what a sender 'knows' is read from the H2 hook marking the dispatcher's processing of ReceiveClose/ReceiveFinish"],
         "legs": [
+            # a receiver is closed while its endpoint's event queue is full; the first close() is abandoned, the second must reach the peer
+            dict(CT, kind="trace", name="close_retry", workload="ret_cancel", n=(80, 1200), opts={}, require={r'"kind":"close"': 150}, nontrivial=[r'"kind":"close"']),
             # sending endpoint of a remote mpsc channel: local queue, back channel, biased select (deviation = seeded change C11_m2)
             model("Mpsc_MC.cfg", spec="Mpsc.tla", min_states=150),
             model("Mpsc_DevQueueFirst.cfg", spec="Mpsc.tla", expect_violation="C11_NoStartAfterCloseArrived"),
